@@ -174,7 +174,7 @@ def run_job(job, logdir):
     qc = H.build_circuit(job["circ"])
     n = len(job["labels"])
     cls = {"RecBinaryCircuit": RecBinaryCircuit, "RecEfficientCircuit": RecEfficientCircuit, "RecCircuit": RecCircuit, "RecVec": RecVec}[job["cls"]]
-    gates = {"draw": DrawGates(), "standard": gg.standard_gates, "vec": None}[job["gates"]]
+    gates = {"draw": DrawGates(), "standard": gg.standard_gates, "weak": gg.ScaledNoiseGates(noise_scaling=1e-8), "vec": None}[job["gates"]]
     if job["gates"] == "vec":
         RecVec.TABLE = job["table"]
     psi0 = np.zeros(2 ** n); psi0[0] = 1
@@ -247,7 +247,7 @@ def single_shot_at(job, position, seed=None):
     layout, _, _ = sim._process_layout(qc)
     n_rz, _, data = sim._preprocess_circuit(qc, layout, n)
     base = getattr(cc, job["cls"][3:])
-    gates = {"draw": DrawGates(), "standard": gg.standard_gates}[job["gates"]]
+    gates = {"draw": DrawGates(), "standard": gg.standard_gates, "weak": gg.ScaledNoiseGates(noise_scaling=1e-8)}[job["gates"]]
     psi0 = np.zeros(2 ** n); psi0[0] = 1
     np.random.seed(job["npseed"])
     [np.random.normal() for _ in range(position)]
